@@ -37,6 +37,7 @@ type Profile struct {
 	Nested   bool // visits may carry nested ops
 	ReopenNoDrop bool // only Close+Reopen (reference counting needs Close)
 	PlainNames bool // always the plain collection names (engines that address "a","b" literally)
+	HugeNames bool // rarely: a 70 000-byte collection name (root records beyond 64 KiB)
 	NestedKinds []string // ops a visitor callback may run (default nestedKinds)
 	Stores   int  // max extra unrelated stores
 	EndOnly  int  // percentage of cases that compare only at the end
@@ -172,6 +173,9 @@ func (p *Profile) genOpKind(t *rapid.T, kind string, gs *genState, depth int) Op
 		coll()
 		o.Key = genKey(t, p)
 		o.Val = genVal(t, p)
+		if p.Hostile && kind == OpSet && uni(t, 100, "rthostile") < 4 {
+			o.Flag = 1 + uni(t, 4, "rthostilekind") // run-time copy / fragment of the file's own last root record
+		}
 		if kind == OpSet {
 			if gs.mono {
 				// distinct, never-lowering priorities: rank drawn, made unique by the step
@@ -333,7 +337,10 @@ func GenCase(p *Profile) *rapid.Generator[Case] {
 			c.Cfg.CmpViaSet = uni(t, 3, "cmpviaset") == 0
 		}
 		if !p.PlainNames && uni(t, 100, "nameset") < 40 {
-			c.Cfg.NameSet = 1 + uni(t, len(NameSets)-1, "namesetidx")
+			c.Cfg.NameSet = 1 + uni(t, len(NameSets)-2, "namesetidx")
+		}
+		if p.HugeNames && uni(t, 100, "hugename") < 3 {
+			c.Cfg.NameSet = len(NameSets) - 1
 		}
 		curNameSet = c.Cfg.NameSet
 		if p.Stores > 0 {
